@@ -113,6 +113,19 @@ CLAIMED["C14"] = dict(
     technique="error/check pairing over MIR path tables + Result-propagation dataflow",
 )
 
+CLAIMED["C09"] = dict(
+    category="other",
+    text=("Structural clauses: R9.1 in every LineString entry (simplify, simplify_idx, simplify_vw, simplify_vw_idx, simplify_vw_preserve) engine "
+          "work happens only on paths that tested eps <= 0 false and an identity path exists (sibling agreement of the guard); R9.2 coordinate- "
+          "and index-returning Douglas-Peucker entries use the same INITIAL_MIN and forward it to compute_rdp; R9.3 every ring of a Polygon / "
+          "MultiPolygon is simplified with INITIAL_MIN >= 4 in Douglas-Peucker and VW-preserve, never through the line-string impl, and "
+          "compute_rdp compares the shrunk length with INITIAL_MIN; R9.4 results through Polygon::new; R9.5 all area-vs-eps comparisons of a VW "
+          "engine agree at area == eps. Not decided: the eps error bound, heap invalidation, split arithmetic."),
+    design_ref="DESIGN.md §4 C09",
+    note="Trusted: rustc callee resolution / const generic arguments. The numeric tolerance clauses are not claimed.",
+    technique="guard / sibling-agreement rules over resolved callees and MIR path tables",
+)
+
 NOT_YET = "rule set not implemented in this revision of /verif (see DESIGN.md §7 build order); nothing is claimed"
 NA = {}
 
